@@ -201,24 +201,31 @@ def mdNewA (s : AS) : Option MD × AS :=
     | (none, s2) => (none, freeS h s2)
     | (some t, s2) => (some { hdr := h, tree := t }, s2)
 
-/-- replace the value of element `id`: the old buffer is released, the new one installed -/
+/-- replace the value of the (first) element with id `id` -/
+def updVal (id : Id) (vblk : Option Id) (v : Val) : List MEl → List MEl
+  | [] => []
+  | m :: ms => if m.el == id then { m with vblk := vblk, val := v } :: ms else m :: updVal id vblk v ms
+
 def MD.setVal (d : MD) (id : Id) (vblk : Option Id) (v : Val) : MD :=
-  { d with els := d.els.map fun m => if m.el == id then { m with vblk := vblk, val := v } else m }
+  { d with els := updVal id vblk v d.els }
 
 def MD.oldVblk (d : MD) (id : Id) : Option Id :=
   match d.elOf id with | some m => m.vblk | none => none
 
+/-- the copy of the value made first by `mdict_put_str`: `none` = allocation failed,
+    `some none` = NULL value (no copy), `some (some b)` = copy in block `b` -/
+def mdValCopyA (v : Val) (s : AS) : Option (Option Id) × AS :=
+  match v with
+  | none => (some none, s)
+  | some _ =>
+    match allocS s with
+    | (none, s1) => (none, s1)
+    | (some b, s1) => (some (some b), s1)
+
 /-- `mdict_put_str` (with F10): value copy, lookup, then key copy, element, tree insert;
     on a later failure everything obtained in this call is released (`el`, `kptr`, `vptr`). -/
 def mdPutA (d : MD) (k : Key) (v : Val) (s : AS) : (Bool × MD) × AS :=
-  -- value copy first
-  let r1 : Option (Option Id) × AS :=
-    match v with
-    | none => (some none, s)
-    | some _ => match allocS s with
-      | (none, s1) => (none, s1)
-      | (some b, s1) => (some (some b), s1)
-  match r1 with
+  match mdValCopyA v s with
   | (none, s1) => ((false, d), s1)
   | (some vb, s1) =>
     match lookup d.tree.eroot k with
@@ -258,6 +265,14 @@ def urldecStrA (src : List UInt8) (s : AS) : Option (Id × List UInt8 × List UI
     | none => (none, freeS b s1)
     | some (d, rest) => (some (b, d, rest), s1)
 
+/-- the optional `=value` part of one pair: `none` = failure, else value block, value, rest -/
+def urlValueA (r : List UInt8) (s : AS) : Option (Option Id × Val × List UInt8) × AS :=
+  if r.head? = some 61 then
+    match urldecStrA r.tail s with
+    | (none, s2) => (none, s2)
+    | (some (vb, v, r2), s2) => (some (some vb, some v, r2), s2)
+  else (some (none, none, r), s)
+
 /-- `mdict_urldecode`, one pair per round.  Result: `(ok, dict')`.  Pairs completed before a
     failure stay in the dict (as in the code); the failing pair leaves no trace. -/
 def mdUrldecodeA (fuel : Nat) (d : MD) (src : List UInt8) (s : AS) : (Bool × MD) × AS :=
@@ -268,14 +283,7 @@ def mdUrldecodeA (fuel : Nat) (d : MD) (src : List UInt8) (s : AS) : (Bool × MD
     match urldecStrA src s with                                          -- key
     | (none, s1) => ((false, d), s1)
     | (some (kb, k, r), s1) =>
-      -- value
-      let rv : Option (Option Id × Val × List UInt8) × AS :=
-        if r.head? = some 61 then
-          match urldecStrA r.tail s1 with
-          | (none, s2) => (none, s2)
-          | (some (vb, v, r2), s2) => (some (some vb, some v, r2), s2)
-        else (some (none, none, r), s1)
-      match rv with
+      match urlValueA r s1 with
       | (none, s2) => ((false, d), freeS kb s2)                          -- fail: k released
       | (some (vb, v, r2), s2) =>
         let r3 := if r2.head? = some 38 then r2.tail else r2
